@@ -22,10 +22,12 @@ from ..wsgi_peer import WsgiPeer
 SITE = [("site/index.html", b"<h1>index</h1>"), ("site/a.txt", b"alpha file\n"), ("site/sub/index.html", b"<h1>sub</h1>"), ("site/sub/x.html", b"<p>x</p>"),
         ("site/é.txt", b"accent"), ("site/empty.bin", b""), ("site/big.bin", bytes(range(256)) * 40), ("site/about.html", b"<p>about</p>"),
         # a directory and a page of the same name side by side: /sub is the directory
-        ("site/sub.html", b"<p>page named like the directory</p>")]
+        ("site/sub.html", b"<p>page named like the directory</p>"), ("site/release-1.2.html", b"<p>notes</p>")]
 FILES = [("site/a.txt", 11), ("site/big.bin", 10240), ("site/empty.bin", 0)]
 SEGS = ["a", "b", "static", "api", "é", "中", "x.html", "index.html", "sub", "1", "007", "2021-03-07", "123.5", "90478484-0988-45fc-91fe-757d90136892",
-        "a.txt", "about", "big.bin", "é.txt", "empty.bin", "100%", "a b", "x"]
+        "a.txt", "about", "big.bin", "é.txt", "empty.bin", "100%", "a b", "x",
+        # characters that delimit the query / fragment on the wire are ordinary path characters once decoded; a stem with a dot
+        "what?now", "a#b", "release-1.2"]
 QUERIES = ["", "", "a=1", "a=1&a=2&b=%E4%B8%AD", "x", "q=a+b&empty=", "k=%26%3D&k2=v%20w", "a=1;b=2"]
 ACCEPTS = [None, "*/*", "text/html, application/json;q=0.9", "application/json", "text/*;q=0.5, image/png", " , ,text/plain"]
 COOKIES = [None, "a=1", "a=1; b=2", 'q="x\\073y"; e=', "noequals; a=b", "  sp = v ; k=v=w"]
